@@ -11,6 +11,7 @@ import (
 	"io"
 	"os"
 	"path/filepath"
+	"strings"
 
 	"github.com/sirupsen/logrus"
 	"github.com/spali/go-rscp/rscp"
@@ -38,7 +39,12 @@ func newCaseWriter(dir string) *caseWriter {
 }
 
 // add records one case. prop is "" when the Go-side oracle has nothing to say, "pass", or "FAIL …".
+func oneLine(s string) string {
+	return strings.NewReplacer("\n", "\\n", "\r", "\\r").Replace(s)
+}
+
 func (cw *caseWriter) add(op, impl, label, prop string) {
+	op, impl, label, prop = oneLine(op), oneLine(impl), oneLine(label), oneLine(prop)
 	cw.ops.WriteString(op)
 	cw.ops.WriteByte('\n')
 	cw.impl.WriteString(impl)
